@@ -15,15 +15,19 @@ import (
 )
 
 type free struct {
-	id   int
-	b    *book
-	kind string
+	id    int
+	b     *book
+	kind  string
+	stall time.Duration
 }
 
 func (t *free) Run() error {
 	t.b.enter(t.id)
 	if t.id%7 == 0 {
 		runtime.Gosched()
+	}
+	if t.stall > 0 {
+		time.Sleep(t.stall) // failing-input search: a task that holds its worker for 10..50 ms
 	}
 	t.b.leave(t.id)
 	switch t.kind {
@@ -63,6 +67,9 @@ func stressOnce(c Case, tmo time.Duration) (fails []fail, hung bool) {
 					kind = c.Kinds[id]
 				}
 				t := &free{id: id, b: b, kind: kind}
+				if c.StallMs > 0 && c.StallEvery > 0 && id%c.StallEvery == 0 {
+					t.stall = time.Duration(c.StallMs) * time.Millisecond
+				}
 				var err error
 				res := "ok"
 				if p := hxlib.Guard(func() { err = ex.Execute(t) }); p != "" {
